@@ -42,22 +42,22 @@ def cmd_import(pid, x):
     print('imported', dst)
 
 
-def cmd_import2(pid):
-    """round 2: /tmp/seed2_<pid>/out/{a,b} or {c,d} -> seeded/<pid>c, seeded/<pid>d"""
-    base = '/tmp/seed2_%s/out' % pid
+def cmd_import2(pid, rnd=2):
+    """round 2: /tmp/seed2_<pid>/out/{a,b} or {c,d} -> seeded/<pid>c, seeded/<pid>d; round 3: /tmp/seed3_<pid> -> <pid>e, <pid>f"""
+    base = '/tmp/seed%d_%s/out' % (rnd, pid)
     subs = sorted(d for d in os.listdir(base) if os.path.isdir(os.path.join(base, d)))
-    for sub, x in zip(subs, 'cd'):
+    for sub, x in zip(subs, 'cd' if rnd == 2 else 'ef'):
         dst = os.path.join(V, 'seeded', pid + x)
         os.makedirs(dst, exist_ok=True)
         for f in ('patch.diff', 'demo.py', 'notes.md'):
             shutil.copy(os.path.join(base, sub, f), dst)
         m = load_meta(pid + x)
         m['needs_to_manifest'] = open(os.path.join(dst, 'notes.md')).read()[:1500]
-        m['round'] = 2
+        m['round'] = rnd
         save_meta(pid + x, m)
         print('imported', dst)
-    sh('git -C /repo worktree remove --force /tmp/seed2_%s' % pid)
-    shutil.rmtree('/tmp/seed2_%s' % pid, ignore_errors=True)
+    sh('git -C /repo worktree remove --force /tmp/seed%d_%s' % (rnd, pid))
+    shutil.rmtree('/tmp/seed%d_%s' % (rnd, pid), ignore_errors=True)
 
 
 def cmd_verify(name, full=True):
@@ -145,6 +145,8 @@ if __name__ == '__main__':
     c = sys.argv[1]
     if c == 'import2':
         cmd_import2(sys.argv[2])
+    elif c == 'import3':
+        cmd_import2(sys.argv[2], 3)
     elif c == 'import':
         cmd_import(sys.argv[2], sys.argv[3])
     elif c == 'verify':
